@@ -1,5 +1,5 @@
 (* Model/C20Run.v - case type and checker evaluated on harness-generated cases (C20) *)
-From ReqV Require Export Lib.Bytes Lib.PackedBytes Model.Base64 Model.Digest.
+From ReqV Require Export Lib.Bytes Lib.PackedBytes Model.Base64 Model.Digest Model.ProxyAuth.
 
 (* hash oracle table supplied by the harness: (function, input, hex digest) computed with the
    Go standard library for every input the RFC 7616 computation hashes in that case *)
@@ -49,9 +49,48 @@ Inductive c20_case :=
    the Go verifier tolerates a deviation the exact-match verifier of the model does not
    (then only "model accepts => Go accepts" is required) *)
 | VerifyCase (t : hash_table) (chal uri method user pass hint hdr : bytes) (go_accepts strict_only : bool)
+(* net/url on userinfo: url.User/UserPassword(u).String() and the userinfo url.Parse recovers
+   from a raw (valid) userinfo text *)
+| UserinfoCase (u : userinfo) (obs_string raw : bytes) (obs_parse : option userinfo)
+(* one client, keep-alive, a sequence of (proxy URL, https target?, target address) requests
+   through the recording proxy; [texts]: the proxy URL text handed to SetProxyURL where it was
+   rendered by net/url from the credentials ([] where it was written by hand); [obs]: per
+   request the Proxy-Authorization values the proxy received (None = header absent) *)
+| ProxySeqCase (rs : list proxy_req) (texts : list bytes) (obs : list (list (option bytes)))
 (* one call through a real client against the scripted origin *)
 | ExchangeCase (t : hash_table) (replayable : bool) (fault : option bool) (first : wire_request) (status : N) (chal rbody user pass cnonce : bytes)
                (obs_wire : list wire_request) (e : obs_err).
+
+Definition opt_ui_eqb (a b : option userinfo) : bool :=
+  match a, b with
+  | Some (u, p), Some (v, q) => bytes_eqb u v && match p, q with
+                                                 | Some x, Some y => bytes_eqb x y
+                                                 | None, None => true
+                                                 | _, _ => false
+                                                 end
+  | None, None => true
+  | _, _ => false
+  end.
+
+(* a step's observation against the pool model: plain http - exactly the model's list; https - a
+   re-used tunnel shows the proxy nothing, a new one shows one CONNECT; when the model re-uses
+   but the transport happened to dial (the idle connection was not back in the pool yet) the one
+   CONNECT must still carry the current credential *)
+Definition proxy_obs_ok (r : proxy_req) (m o : list (option bytes)) : bool :=
+  let cur := proxy_auth (fst (fst r)) in
+  if snd (fst r)
+  then match m with
+       | [] => match o with [] => true | [h] => opt_bytes_eqb h cur | _ => false end
+       | _ => list_eqb opt_bytes_eqb m o
+       end
+  else list_eqb opt_bytes_eqb m o.
+
+Fixpoint all3 {A B C} (f : A -> B -> C -> bool) (a : list A) (b : list B) (c : list C) : bool :=
+  match a, b, c with
+  | [], [], [] => true
+  | x :: a', y :: b', z :: c' => f x y z && all3 f a' b' c'
+  | _, _, _ => false
+  end.
 
 Definition chal_fields (c : challenge) : list bytes :=
   [c_realm c; c_domain c; c_nonce c; c_opaque c; c_stale c; c_algorithm c; c_qop c; c_userhash c].
@@ -93,6 +132,12 @@ Definition c20_check (c : c20_case) : bool :=
           if strict_only then implb m go else Bool.eqb m go
       | inr _ => false
       end
+  | UserinfoCase u s raw op =>
+      bytes_eqb (ui_string u) s && opt_ui_eqb (ui_parse s) (Some u) && opt_ui_eqb (ui_parse raw) op
+  | ProxySeqCase rs texts obs =>
+      all3 (fun (r : proxy_req) t (_ : list (option bytes)) =>
+              match t with [] => true | _ => bytes_eqb (pu_string (fst (fst r))) t end) rs texts obs &&
+      all3 proxy_obs_ok rs (proxy_run [] rs) obs
   | ExchangeCase t rp fault first status chal rbody user pass cnonce obs e =>
       let rsp := mkResp false status chal rbody in
       list_eqb wire_eqb (digest_exchange_f (H_tab t) fault rp first rsp user pass cnonce) obs &&
